@@ -570,6 +570,7 @@ static void gen_semantic(struct vf_rng *r, struct pk *p)
 
 /* Emit the packets interleaved.  Each packet is cut into runs of pairs; a run
  * begins with the start code (first run) or the continue code. */
+static long n_empty_runs;
 static void gen_stream(struct vf_rng *r, struct pk *pk, int npk, int midnul)
 {
 	int pos[MAXPK], done[MAXPK], started[MAXPK], left = npk, i, last = -1;
@@ -602,7 +603,10 @@ static void gen_stream(struct vf_rng *r, struct pk *pk, int npk, int midnul)
 			emit(pk[k].cls * 2 + 2, pk[k].type, k);
 		}
 		last = k;
-		run = vf_range(r, 1, 20);
+		/* one run in eight is empty: the packet is interrupted right behind its start (or continue) code,
+		 * before any payload pair - an interruption point like any other */
+		run = vf_chance(r, 1, 8) ? 0 : vf_range(r, 1, 20);
+		if (run == 0 && pos[k] < pk[k].len) n_empty_runs++;
 		while (run-- > 0 && pos[k] < pk[k].len) {
 			int a = pk[k].data[pos[k]++], b = 0;
 			if (pos[k] < pk[k].len && !(midnul && vf_chance(r, 1, 6))) b = pk[k].data[pos[k]++];
@@ -690,6 +694,36 @@ static void compare(const char *iface)
 		vf_fail("model:C09:no-nul", "%s: buffer[buffer_size] != 0 in %d deliveries", iface, got_bad_nul);
 }
 
+/* a packet of the same class and type that differs from *src in one detail only: one flag or number, one character,
+ * or a text that is a proper prefix / an extension of the other (change detection compares field by field) */
+static void gen_variant(struct vf_rng *r, struct pk *p, const struct pk *src)
+{
+	int i;
+	*p = *src;
+	p->bad_sum = 0;
+	if (p->cls <= 1 && p->type == 1 && p->len == 4) {          /* PIN: tape delay flag only, or one field */
+		switch (vf_below(r, 3)) {
+		case 0: p->data[3] ^= 0x10; break;
+		case 1: p->data[0] = (uint8_t)(0x40 | ((p->data[0] + 1) & 0x3F) % 60); break;
+		default: p->data[2] = (uint8_t)(0x40 | (1 + (p->data[2] & 0x1F) % 31)); break;
+		}
+	} else if (p->cls <= 1 && (p->type == 2 || p->type == 5)) { /* length / rating: one bit of one byte */
+		i = (int)vf_below(r, (unsigned)p->len);
+		p->data[i] = (uint8_t)(0x40 | ((p->data[i] ^ (1u << vf_below(r, 6))) & 0x3F));
+		if (p->type == 2 && p->len == 6) p->data[5] = 0x40;
+	} else {                                                     /* texts: prefix, extension, one character */
+		int minlen = (p->cls == 2 && p->type == 2) ? 4 : 2, maxl = (p->cls == 2 && p->type == 2) ? 6 : 32;
+		switch (vf_below(r, 3)) {
+		case 0: if (p->len > minlen) { p->len -= vf_range(r, 1, p->len - minlen > 3 ? 3 : p->len - minlen); break; }
+			/* fall through */
+		case 1: if (p->len < maxl) { p->data[p->len++] = (uint8_t)vf_range(r, 0x41, 0x5a); break; }
+			/* fall through */
+		default: i = (int)vf_below(r, (unsigned)p->len); p->data[i] = (uint8_t)(p->data[i] == 0x41 ? 0x42 : 0x41); break;
+		}
+	}
+	vf_count("semantic_variant_packets", 1);
+}
+
 static int run_case(struct vf_rng *r, long idx)
 {
 	struct pk pk[MAXPK];
@@ -708,7 +742,10 @@ static int run_case(struct vf_rng *r, long idx)
 		/* programme / network information scenario: a small pool of meaningful packets, repeated */
 		struct pk pool[5];
 		int npool = vf_range(r, 1, 4), j;
-		for (j = 0; j < npool; j++) gen_semantic(r, &pool[j]);
+		for (j = 0; j < npool; j++) {
+			if (j && vf_chance(r, 1, 2)) gen_variant(r, &pool[j], &pool[j - 1]);
+			else gen_semantic(r, &pool[j]);
+		}
 		npk = vf_range(r, 2, 12);
 		for (i = 0; i < npk; i++) {
 			pk[i] = pool[(i == 1 && vf_chance(r, 1, 2)) ? 0 : (i == 0 ? 0 : (int)vf_below(r, (unsigned)npool))];
@@ -723,7 +760,9 @@ static int run_case(struct vf_rng *r, long idx)
 	}
 	}
 	depth = npk;
+	n_empty_runs = 0;
 	gen_stream(r, pk, npk, midnul);
+	vf_count("runs_interrupted_before_first_payload_pair", n_empty_runs);
 	nf = vf_chance(r, 1, 2) ? 0 : vf_range(r, 1, 3);
 	if (nf) kinds = apply_faults(r, nf);
 	/* one case in four: the application resets the demultiplexer once or twice somewhere in the stream, also in
